@@ -5,7 +5,7 @@ From KV Require Import Glob.GlobalsTypes Glob.Conc Glob.GlobalsAllow.
 
 Definition akind_eqb (a b : akind) : bool :=
   match a, b with
-  | ARead, ARead | AWrite, AWrite | AMapRead, AMapRead | AMapWrite, AMapWrite
+  | ARead, ARead | AWrite, AWrite | AMapRead, AMapRead | AMapRange, AMapRange | AMapWrite, AMapWrite
   | ARefUse, ARefUse | AEscape, AEscape | AUnbalanced, AUnbalanced => true
   | _, _ => false
   end.
@@ -54,7 +54,7 @@ Definition row_disciplined (tbl : list (string * list prot)) (r : gaccess) : boo
   let c := ctx_of_tokens (a_ctx r) in
   tokens_known (a_ctx r) &&
   match a_kind r with
-  | ARead | AMapRead | ARefUse => read_ok_s ps c
+  | ARead | AMapRead | AMapRange | ARefUse => read_ok_s ps c
   | AWrite | AMapWrite => write_ok_s ps c
   | AEscape | AUnbalanced => false
   end.
@@ -129,3 +129,10 @@ Definition tc_type_ok (t : string * bool * bool * bool) : bool :=
   let '(_, has, mk, cp) := t in has && mk && cp.
 Definition deepcopy_ok (fields : list (string * string * bool * dckind)) (tys : list (string * bool * bool * bool)) : bool :=
   negb (is_nil fields) && forallb tc_field_ok fields && negb (is_nil tys) && forallb tc_type_ok tys.
+
+(* ---------- determinism: no iteration over the accumulated schema maps ---------- *)
+(* kyaml/openapi ranges only over the maps of the document being parsed (parameters), never over the accumulated
+   package-level maps: with several stored definitions claiming one group/version/kind, an index rebuilt by ranging over
+   the accumulated map would pick the winner by Go's randomised iteration order. *)
+Definition range_rows (prefix : string) (rows : list gaccess) : list gaccess :=
+  filter (fun r => match a_kind r with AMapRange => has_prefix prefix (a_var r) | _ => false end) rows.
